@@ -91,6 +91,7 @@ func splitFrames(b []byte) [][]byte {
 func TestC17(t *testing.T) {
 	r := vf.Begin(t, "C17")
 	defer r.End()
+	defer perturbReport(r)
 	r.Describe("PRNG hostile-peer scenarios (synctest bubble, transport buffers 1 B / 4 KiB / 64 KiB / 4 MiB): (A) recorded well-formed client byte streams (1-6 multiplexed requests with bodies, trailers, continuations, padding, control frames) cut at a byte offset (every offset in thorough for short streams), ended by EOF or RST; "+
 		"(B) structure-aware mutations (frame insert/delete/duplicate/reorder, header-field flips, length lies); (C) frame soups; (D) the peer never reads, floods PING/SETTINGS/requests, then disconnects; (E) the server's transport write fails after N bytes; (F) disconnect while 1-8 handlers run, are parked, or stream bodies. "+
 		"Monitors: no 'panicked' line in the server's logger except for a handler the scenario made panic; the worker process survives; ServeConn has returned 15 virtual seconds after the peer is gone; no goroutine of the connection with a dgrr/http2 frame is left; no RequestCtx goes back to (or comes out of) the pool while the handler that received it is still running. "+
